@@ -15,7 +15,7 @@ RULE = ('case = one call of a query method (len, in, count, find, rfind, index, 
 ASSUMPTIONS = ['CPython 3.12 str is the reference', 'calls where str itself raises are left to C09']
 MIN_EVAL = 1000
 CASES = {'quick': 1200, 'thorough': 15000}
-WEIGHTS = {'query': 10, 'strip': 4, 'split': 5, 'splitlines': 2, 'partition': 4, 'replace': 5, 'expandtabs': 1.5,
+WEIGHTS = {'assign_str': 2, 'query': 10, 'strip': 4, 'split': 5, 'splitlines': 2, 'partition': 4, 'replace': 5, 'expandtabs': 1.5,
            'removefix': 3, 'case': 4, 'pad': 5, 'contains': 2, 'apply': 4, 'add': 2, 'getitem': 1}
 
 QUERY = {'count', 'find', 'rfind', 'index', 'rindex', 'endswith', 'isalnum', 'isalpha', 'isascii', 'isdecimal',
@@ -38,7 +38,8 @@ def plain(L, x):
 def reference(L, name, t, args, kw):
     """(kind, value): kind 'skip' (outside the claim), 'raises', or 'value'"""
     a = [plain(L, x) for x in args]
-    kw = {k: plain(L, v) for k, v in kw.items() if k not in ('inplace', 'extend_formatting')}
+    new_is_plain = kw.get('__new_is_plain_str__', True)
+    kw = {k: plain(L, v) for k, v in kw.items() if k not in ('inplace', 'extend_formatting', '__new_is_plain_str__')}
 
     def arg(i, key, default=None):
         if key in kw:
@@ -49,8 +50,8 @@ def reference(L, name, t, args, kw):
         if name == '__len__':
             return 'value', len(t)
         if name == '__contains__':
-            if not isinstance(a[0], str):
-                return 'skip', None
+            if not isinstance(a[0], str) or '\x1b' in a[0]:
+                return 'skip', None     # a str operand is parsed for escape sequences by design: outside the claim
             return 'value', a[0] in t
         if name in ('strip', 'lstrip', 'rstrip'):
             chars = arg(0, 'chars')
@@ -84,7 +85,16 @@ def reference(L, name, t, args, kw):
                 return 'value', (t, '', '')
             return 'value', tuple(getattr(t, name)(sep))
         if name == 'replace':
-            return 'value', t.replace(arg(0, 'old'), arg(1, 'new'), arg(2, 'count', -1))
+            new = arg(1, 'new')
+            if new_is_plain and isinstance(new, str) and '\x1b' in new:
+                # a plain-str replacement is parsed for escape sequences by design (C02 semantics): the text that
+                # gets inserted is the replacement with its SGR sequences removed
+                from .c02 import ref_parse
+                ntext, _, grey, _ = ref_parse(new)
+                if grey or ntext is None:
+                    return 'skip', None
+                new = ntext
+            return 'value', t.replace(arg(0, 'old'), new, arg(2, 'count', -1))
         if name in ('ljust', 'rjust'):
             return 'value', getattr(t, name)(arg(0, 'width'), arg(1, 'fillchar', ' '))
         if name == 'splitlines':
@@ -109,7 +119,12 @@ class StrContract(Contract):
     def pre(self, call):
         L = self.L
         # arguments are reduced to their base text *before* the call (an argument may be the receiver itself)
-        return (call.recv.base_str, [plain(L, a) for a in call.args], {k: plain(L, v) for k, v in call.kwargs.items()})
+        pkw = {k: plain(L, v) for k, v in call.kwargs.items()}
+        if call.name == 'replace':
+            new = call.arg(1, 'new')
+            # only a *plain str* replacement is parsed for escape sequences; an AnsiString's base text is inserted as is
+            pkw['__new_is_plain_str__'] = isinstance(new, str) and not is_ansi(L, new)
+        return (call.recv.base_str, [plain(L, a) for a in call.args], pkw)
 
     def post(self, call, st, result, exc):
         ctx = self.ctx
@@ -182,6 +197,7 @@ def direct_calls(ctx, rng, L, v):
         lambda: v.replace(sub(False), rng.choice(['', 'x', 'yy', sub(False)]), rng.choice([-1, 0, 1, 2])),
         lambda: v.replace('', rng.choice(['x', '', 'ab']), rng.choice([-1, 0, 1, 2, 50])),
         lambda: v.replace(sub(False), L.AnsiString('QQ', 'blue')),
+        lambda: (lambda o: v.replace(o, o))(sub(False)), lambda: v.replace(t[:2], t[:2], rng.choice([-1, 1])),
         lambda: v.split(rng.choice([None, sub(False), ' ', 'ab'])), lambda: v.split(sub(False), rng.choice([-1, 0, 1, 2])),
         lambda: v.rsplit(rng.choice([None, sub(False)]), rng.choice([-1, 0, 1, 2])), lambda: v.split(None, rng.choice([0, 1, 2])),
         lambda: v.splitlines(), lambda: v.splitlines(True),
@@ -202,7 +218,7 @@ def drive(ctx, mon, tier, only_case=None):
     sz = tier_sizes(tier)
 
     def body(rng, ex, case):
-        history(L, rng, ex, rng.randint(1, 6), sz['maxlen'], 'wf', WEIGHTS)
+        history(L, rng, ex, rng.randint(1, 6), sz['maxlen'], 'wf', WEIGHTS, esc=rng.random() < 0.15)
         vals = ansi_values(L, ex)
         for v in vals[-4:]:
             if len(v.base_str) <= 80:
